@@ -21,10 +21,15 @@ Write(o, a, v) == IF a >= o.len THEN o ELSE [o EXCEPT !.m = (a :> v) @@ @]
 \* Put: consecutive bytes from a; MapMemory wraps past FFFF; for DumbMemory the block must
 \* lie inside the slice (precondition PutOK, otherwise the behaviour is not specified)
 PutOK(o, a, data) == o.kind = "mapmem" \/ a + Len(data) <= o.len
-RECURSIVE PutFrom(_, _, _, _)
-PutFrom(o, a, data, i) == IF i > Len(data) THEN o
-                          ELSE PutFrom(Write(o, Wrap(o, a + i - 1), data[i]), a, data, i + 1)
-Put(o, a, data) == PutFrom(o, a, data, 1)
+\* closed form (a block may be longer than the address space: the last write to an address wins)
+Put(o, a, data) ==
+  LET n == Len(data)
+      sp == AddrSpace(o)
+      touched == IF n >= sp THEN 0 .. (sp - 1) ELSE {Wrap(o, a + i - 1) : i \in 1 .. n}
+      \* index of the last element of data stored at address x
+      LastIdx(x) == LET i0 == ((x - a) % sp) + 1 IN i0 + sp * ((n - i0) \div sp)
+      inside == {x \in touched : x < o.len}
+  IN [o EXCEPT !.m = [x \in inside |-> data[LastIdx(x)]] @@ @]
 
 Clear(o) == [o EXCEPT !.m = <<>>]
 
